@@ -62,7 +62,37 @@ def over_limit_programs():
         P.append(('overlimit:function-%d-parameters' % n, 'function f(%s) -> p0 + p%d; print("~\\n", f(%s))' % (pars(n), n - 1, args(n))))
         P.append(('overlimit:call-%d-arguments' % n, 'function f(a) -> a; print("~\\n", f(%s))' % args(n)))
         P.append(('overlimit:print-%d-arguments' % n, 'print("%s\\n", %s)' % (' '.join(['~'] * n), args(n))))
+    # forms the grammar refuses today (a definition where a value is expected): if a front end ever accepts them, what the compiler emits is judged like anything else
+    for k, t in enumerate(['let f = function g() -> 1; print("~\\n", f)', 'begin function g() -> 1 end; g()', 'function h() -> begin 1; function g() -> 2 end; print("~\\n", h())',
+                           'function k(a) -> a; k(function g() -> 1)', 'if true then function g() -> 1 else 2', 'let o = object begin let v = function g() -> 1 end; o',
+                           'let a = array(2, function g() -> 1); a', 'while false do function g() -> 1; print("~\\n", 1 + function g() -> 1)']):
+        P.append(('overgrammar:definition-in-value-position-%d' % k, t))
     return [{'name': n, 'text': t, 'ast': None} for n, t in P]
+
+
+def sandwich_programs():
+    """a definition with its own control flow between two pieces of control flow of the enclosing body, in every frame kind (labels, temporaries and slots are
+    numbered per compilation unit: what is counted before, inside and after a nested definition must not collide)"""
+    ctl = {'if': 'if x > 0 then print("pos;") else print("neg;")', 'ifv': 'let s%d = if x > 0 then 1 else 2', 'while': 'let i%d = 0; while i%d < 2 do begin print("w;"); i%d <- i%d + 1 end',
+           'arr': 'let a%d = array(2, begin print("e;"); x end)'}
+    defs = {'plain': 'let o = object begin function m(k) -> k + 1 end', 'if': 'let o = object begin function m(k) -> if k > 0 then k else 0 - k end',
+            'loop': 'let o = object begin function m(k) -> begin let j = 0; while j < k do j <- j + 1; j end end',
+            'two': 'let o = object begin function m(k) -> if k > 0 then k else 0 - k; function n(k) -> begin if k > 1 then print("big;"); if k > 2 then print("bigger;"); k end end',
+            'fun': 'function inner(k) -> if k > 0 then k else 0 - k'}
+    def inst(t, n):
+        return t.replace('%d', str(n))
+    out = []
+    for an, a in ctl.items():
+        for dn, d in defs.items():
+            for cn, c in ctl.items():
+                body = '%s; %s; %s; print("~ ~\\n", %s, x)' % (inst(a, 1), d, inst(c, 2), 'inner(0 - 3)' if dn == 'fun' else 'o.m(0 - 3)')
+                frames = {'top': 'let x = 3; %s' % body, 'block': 'begin let x = 3; %s end' % body,
+                          'fun': 'function f(x) -> begin %s end; f(3); f(0 - 4)' % body, 'meth': 'let h = object begin function g(x) -> begin %s end end; h.g(3); h.g(0 - 4)' % body}
+                for fn, t in frames.items():
+                    if dn == 'fun' and fn != 'top':
+                        continue          # function definitions are top-level forms
+                    out.append({'name': 'sandwich:%s/%s/%s/%s' % (an, dn, cn, fn), 'text': t, 'ast': None})
+    return out
 
 
 def corpus():
